@@ -76,6 +76,8 @@ def param_variants(p):
         ("limits-below-default", (-2.5, -5.0, -1.0, df)),
         ("percent", (dv, dv * 50.0 / 100, dv * 150.0 / 100, df)),
         ("negative-unbounded", (-v1, -INF, INF, df)),
+        ("upper-limit-zero", (-2.5, -5.0, 0.0, df)),          # a limit of exactly 0 is a limit
+        ("lower-limit-zero", (2.5, 0.0, 5.0, df)),
     ]
 
 
@@ -434,7 +436,13 @@ def run_roundtrip(case):
     keybase = family if family.startswith("label:") else "roundtrip:" + family
     c = Circuit(T.build(tree))
     if T.extract(c) != tree:
-        raise AssertionError(f"harness: the builder did not produce the intended tree: {T.describe(T.extract(c), tree)}")
+        # the tree is built through the library's own setters (set_values / set_*_limits / set_fixed / set_label): if reading the
+        # circuit back does not give what was set, a setter stored something else -- a defect of the element API, reported as such
+        d0 = decimals_list[0]
+        what = T.describe(T.extract(c), tree)
+        return [(("rt", repr(tree), d0), True)], [(f"{keybase}:built-circuit-differs-from-what-was-set", "Element.set_upper_limits",
+                                                  f"[{family}] building the circuit with the element setters and reading it back: {what}",
+                                                  fill_template(ROUNDTRIP_REPRO, tree=tree, decimals=d0, normal=parser_normal(tree)))], {"family": family, "text": repr(what)[:160]}
     normal = Circuit(T.build(parser_normal(tree)))
     for d in decimals_list:
         cases.append((("rt", repr(tree), d), True))
